@@ -1,0 +1,38 @@
+//! Synchronisation primitives used under `--cfg jubako_verif_loom` (verification only):
+//! loom's `Mutex` and a `Condvar` with the `wait_while` of std (loom's has none).
+
+pub(crate) use loom::sync::{Mutex, MutexGuard};
+use std::sync::LockResult;
+
+#[derive(Debug)]
+pub(crate) struct Condvar(loom::sync::Condvar);
+
+impl Condvar {
+    pub fn new() -> Self {
+        Self(loom::sync::Condvar::new())
+    }
+
+    #[allow(dead_code)]
+    pub fn notify_one(&self) {
+        self.0.notify_one()
+    }
+
+    pub fn notify_all(&self) {
+        self.0.notify_all()
+    }
+
+    /// As `std::sync::Condvar::wait_while`: wait as long as `condition` holds.
+    pub fn wait_while<'a, T, F>(
+        &self,
+        mut guard: MutexGuard<'a, T>,
+        mut condition: F,
+    ) -> LockResult<MutexGuard<'a, T>>
+    where
+        F: FnMut(&mut T) -> bool,
+    {
+        while condition(&mut *guard) {
+            guard = self.0.wait(guard)?;
+        }
+        Ok(guard)
+    }
+}
